@@ -109,6 +109,38 @@ def d7_unrepaired():
     return not start_exact and not turn_keeps
 
 
+_ANCHORS = None
+
+def anchors_unrepaired():
+    """True while /repo has finding C17-D8 (translate/gen_search.py reads the flags of the two ure_exec calls from
+    src/search.c, translate/gen_ure.py the four places of ure_exec).  Repaired (fixes/C17-line-anchors.diff, both files),
+    half-applied or unrecognised source: no excuse - `^` matching at the cursor inside a row is a VIOLATION."""
+    global _ANCHORS
+    if _ANCHORS is None:
+        sys.path.insert(0, os.path.join(verif.VERIF, "translate"))
+        import gen_search, gen_ure
+        try:
+            a, u = gen_search.anchors(verif.REPO), gen_ure.flags(verif.REPO)["line_anchors"]
+            _ANCHORS = (not a) and (not u)
+        except SystemExit:
+            _ANCHORS = False
+    return _ANCHORS
+
+
+def anchors_half_applied():
+    """-> message when search.c and ure.c disagree about fixes/C17-line-anchors.diff (one file patched, the other not)"""
+    sys.path.insert(0, os.path.join(verif.VERIF, "translate"))
+    import gen_search, gen_ure
+    try:
+        a, u = gen_search.anchors(verif.REPO), gen_ure.flags(verif.REPO)["line_anchors"]
+    except SystemExit:
+        return None             # reported by the translator run
+    if a != u:
+        return ("half-applied fixes/C17-line-anchors.diff: search.c %s, ure.c %s (search.c's URE_NOTBOL means 'the text begins "
+                "inside a row' only to the repaired ure_exec)" % ("repaired" if a else "as found", "repaired" if u else "as found"))
+    return None
+
+
 _STORE_REPAIRED = None
 
 
@@ -326,7 +358,7 @@ class Judge:
                             # text cut at the cursor (where `^` sees a beginning).  Nothing else is excused.
                             prev = self.last_hit      # the cursor: end of the stretch highlighted last, either direction
                             cut = text[os_[0]:]
-                            if (ps.dir > 0 and self.srch["regexp"] and "^" in self.srch["pat"] and prev and prev[0] == k and prev[1]
+                            if (anchors_unrepaired() and ps.dir > 0 and self.srch["regexp"] and "^" in self.srch["pat"] and prev and prev[0] == k and prev[1]
                                     and prev[1][1] == os_[0] and text[os_[0] - 1] != "\n"
                                     and self.srch["rx"].fullmatch(cut, 0, os_[-1] + 1 - os_[0])):
                                 self.explained("fwd-continue-bol", "page %x.%x: forward search continued inside a row reports %r at the cursor as a match of a pattern with `^`" % (p, s, text[os_[0]:os_[-1] + 1]))
@@ -699,6 +731,74 @@ def gen_anchor_case(rng, mode="regex"):
     c += ["dump", "endsearch"]
     return c
 
+# progress callback that cancels at every k-th invocation, the search resumed by further vbi_search_next calls (seeded C17-g):
+# the same cache is searched twice in one case, first without interruption, then with `progress k`; the oracle
+# (cancel_oracle) compares the two passes report by report
+def gen_cancel_case(rng):
+    w = rng.choice(["ab", "tor", "xyx", "Zug"])
+    pgnos = sorted(set(pick_pgnos(rng, rng.randint(1, 5), False)))
+    c, nocc = [], 0
+    for p in pgnos:
+        rows = {}
+        for y in rng.sample(range(1, 24), rng.randint(0, 3)):
+            k = rng.choice([0, 1, 1, 2, 3])
+            parts = []
+            for _ in range(k):
+                parts.append(filler(rng, rng.randint(0, 1))[:6]); parts.append(w)
+            txt = " ".join(x for x in parts if x)[:40]
+            nocc += txt.count(w)
+            if txt: rows[y] = txt
+        c.append(Put(p, rng.choice([0, 0, 0, 1, 2]), sorted(rows.items())))
+    c.append("dump")
+    p = rng.choice(pgnos) if rng.random() < 0.7 else rng.randint(0x100, 0x8FF)
+    sub = rng.choice(["0x3f7f", "0", "1"])
+    d = rng.choice([1, 1, -1])
+    srch = "search 0x%x %s 0 0 %s exact" % (p, sub, S.pat_hex(w))
+    n1 = nocc + 3
+    k = rng.randint(2, 4)
+    n2 = (nocc + len(pgnos) + 4) * 3
+    c += [srch] + ["next %d" % d] * n1 + ["endsearch", "progress %d" % k, srch] + ["next %d" % d] * n2 + ["endsearch", "progress 0"]
+    return c
+
+
+def cancel_oracle(case, out):
+    """cases of gen_cancel_case (an op `progress k`, k > 0): the pass interrupted by the progress callback and resumed reports
+    exactly what the uninterrupted pass on the same cache reports - same pages, same highlighted cells, same order, each once -
+    and ends (NOT_FOUND) within the calls given.  Independent of the model."""
+    segs, cur, on = [], None, False
+    for op, o in zip(case, out):
+        t = op.split()
+        if t[0] == "progress": on = len(t) == 2 and t[1] not in ("0",)
+        elif t[0] == "search": cur = {"prog": on, "rep": [], "end": None}; segs.append(cur)
+        elif t[0] == "next" and cur is not None and cur["end"] is None:
+            u = o.split()
+            if len(u) < 2 or u[0] != "ok": continue
+            if u[1] == "1": cur["rep"].append(" ".join(x for x in u[2:4]))
+            elif u[1] == "-1": pass                  # VBI_SEARCH_CANCELED: resumed by the next call
+            else: cur["end"] = u[1]
+        elif t[0] == "endsearch": cur = None
+    plain = [g for g in segs if not g["prog"]]
+    inter = [g for g in segs if g["prog"]]
+    if not plain or not inter: return None
+    a, b = plain[0], inter[0]
+    if a["end"] is None: return None                  # generator gave too few calls: nothing to compare
+    if b["end"] is None:
+        # a callback that cancels at every k-th invocation can cancel at the same place of every resumed call (one cached
+        # page, k = 2: the start page is examined twice per call, first visit and wrapped visit) - the pass then never
+        # ends; no defect.  What was reported until then must be the beginning of the uninterrupted pass.
+        if b["rep"] != a["rep"][:len(b["rep"])]:
+            return ("cancel-resume: the pass interrupted by the progress callback reports %r, the uninterrupted pass begins %r"
+                    % (b["rep"], a["rep"][:len(b["rep"])]))
+        return None
+    if a["rep"] != b["rep"] or a["end"] != b["end"]:
+        i = next((i for i, (x, y) in enumerate(zip(a["rep"], b["rep"])) if x != y), min(len(a["rep"]), len(b["rep"])))
+        return ("cancel-resume: the pass interrupted by the progress callback reports %d occurrences (status %s at the end), the "
+                "uninterrupted pass %d (%s); first difference at report %d: %s / %s" %
+                (len(b["rep"]), b["end"], len(a["rep"]), a["end"], i, (b["rep"] + ["-"])[i] if i < len(b["rep"]) + 1 else "-",
+                 (a["rep"] + ["-"])[i] if i < len(a["rep"]) + 1 else "-"))
+    return None
+
+
 # regular expressions: implementation + oracle only (the model takes the matcher as a parameter)
 REGEXES = [("a.b", "a+b axb"), ("[0-9]+", "12:30 100%"), ("Sp(ort|iel)", "Sport Spiel"), ("b[ae]r", "bar ber"), ("fo*", "f foo"),
            ("x|zz", "zz"), ("[A-Z][a-z]+", "Wetter"), ("1\\.5", "1.5"), ("t.l.t", "teletext"), ("(ab)+", "abab")]
@@ -726,7 +826,8 @@ def gen_regex_case(rng):
 class C17(verif.Spec):
     prop = "C17"
     comp = "search"
-    lean_modules = ["ZvbiModel.Props.C17", "ZvbiModel.Props.C17Ure", "ZvbiModel.Props.C17Pass"]
+    lean_modules = ["ZvbiModel.Props.C17", "ZvbiModel.Props.C17Ure", "ZvbiModel.Props.C17Pass", "ZvbiModel.Props.C17PassRev",
+                    "ZvbiModel.Props.C17Anchors", "ZvbiModel.Props.C17UreAnchors", "ZvbiModel.Props.C17Cancel"]
     harness = "search_harness"
     timeout_per_case = 8.0
     partial_note = ("the page formatter is a parameter of the model; the regular expression engine ure.c is a parameter of the search "
@@ -734,7 +835,9 @@ class C17(verif.Spec):
                     "it for the anchored regular expressions of mode `ure`, over the proved leftmost-occurrence matcher for literals; "
                     "the oracle judges ure.c against Python re); search_exact is proved for whole FORWARD passes (search_exact_pass: "
                     "over any number of successive calls the pages reported are exactly the matching pages, in pass order, each in "
-                    "one block, then NOT_FOUND), not for backward passes and direction changes; every statement about reachable "
+                    "one block, then NOT_FOUND), whole BACKWARD passes (Props/C17PassRev search_exact_pass_rev) and one direction change, not for "
+                    "sequences with several direction changes; the flags search.c hands to ure_exec follow both source shapes of "
+                    "fixes/C17-line-anchors.diff (Props/C17Anchors; ure_exec: Props/C17UreAnchors, transition level); every statement about reachable "
                     "caches is stated for both source shapes of _vbi_cache_put_page (translate/gen_cache.py "
                     "putReplacesAllVersions): as found it excludes C17-D2 explicitly (NoWrap: fewer than 65536 cached pages per page "
                     "number), with fixes/C10-put-replaces-all-versions.diff NoWrap is a theorem (nowrap_repaired)")
@@ -742,11 +845,23 @@ class C17(verif.Spec):
                    "A2 no cache page is referenced by the application while searching, memory limit (1 GiB) not reached, page type never 'clock page'",
                    "A3 unicode_tolower is the ASCII mapping on the generated alphabet",
                    "A4 start page number given to vbi_search_new lies in 0x100..0x8FF (otherwise cache_network_page_stat asserts)"]
-    open_statements = ["Zvbi.Search.search_exact_full for BACKWARD passes and passes with direction changes (forward passes are proved: "
-                       "Props/C17Pass search_exact_pass / search_exact_pass_repaired = soundness, completeness and order over any "
-                       "number of successive forward calls; missing: the same induction over search_page_rev - its cursor cuts the "
-                       "text in front of the previous occurrence, `revMatches` reports the LAST occurrence - and the stop positions "
-                       "a direction change installs)"]
+    open_statements = ["Zvbi.Search.search_exact_full for call sequences with TWO OR MORE direction changes and for cache updates "
+                       "between calls (proved: whole forward passes Props/C17Pass search_exact_pass, whole backward passes "
+                       "Props/C17PassRev search_exact_pass_rev - sound, complete, descending, one block per page, then NOT_FOUND - "
+                       "and ONE direction change: search_turn_rev_exact / search_turn_fwd_exact for the context at the turn, "
+                       "search_pass_fwd_then_rev / search_pass_rev_then_fwd for a fresh search turned once; after a turn the page "
+                       "the cursor stands in is excluded from the completeness part: it is reported again only for occurrences "
+                       "in front of / behind the one highlighted last - documented behaviour)",
+                       "Zvbi.Ure.execA (ure_exec in the source shape of fixes/C17-line-anchors.diff): whole-run statement 'the "
+                       "leftmost match of an anchored pattern is reported, `^` only at line starts, `$` only at line ends' and "
+                       "termination / index safety for every DFA (proved at transition level for every DFA / text / flags: "
+                       "Props/C17UreAnchors bol_taken_iff_line_start, eol_taken_iff_separator, noteol_switches_lookahead_off; "
+                       "kernel-evaluated on the DFAs of `^a` and `a$`; exec_terminates / exec_never_oob of Props/C17Ure are about "
+                       "the shape as found, which is what /repo has)",
+                       "Zvbi.Props.C17Cancel.cancel_resume_equals_uninterrupted (a pass interrupted by the progress callback and "
+                       "resumed reports what the uninterrupted pass reports; modelled - Search/Cancel.lean, compared with the code "
+                       "through the op `progress k` - and judged on the real code by cancel_oracle; proved: what the cancel block "
+                       "does to the context, cancel_keeps_cursor / cancel_moves_start / cancel_callback_counts)"]
     _a5 = ("A5 NoWrap: fewer than 65536 pages are cached under one page number (C17-D2, uint16_t n_subpages) - an assumption only "
            "while _vbi_cache_put_page has the shape with finding F17 (putReplacesAllVersions = false)")
     _open_walk = ("Zvbi.Search.walk_complete_full false (every cached page visited in every sweep after EVERY store history, source "
@@ -798,6 +913,9 @@ class C17(verif.Spec):
         # the flags search.c computes for ure_exec are compared) and oracle
         for _ in range(60 if tier == "quick" else 250):
             raw.append(gen_anchor_case(rng, "ure")); kinds.append("anchor")
+        # progress callback cancelling at every k-th invocation + resumed calls (seeded C17-g): code, MODEL (Search/Cancel.lean) and oracle
+        for _ in range(60 if tier == "quick" else 400):
+            raw.append(gen_cancel_case(rng)); kinds.append("cancel")
         cases = S.resolve(raw, self.run_h)
         for c, k in zip(cases, kinds): self.remember(c, k)
         return cases
@@ -813,6 +931,10 @@ class C17(verif.Spec):
     def oracle(self, case, impl_out):
         if len(impl_out) < len(case):
             return "harness stopped after %d of %d ops" % (len(impl_out), len(case))
+        if any(l.startswith("progress ") and l != "progress 0" for l in case):
+            # interrupted passes: judged against the uninterrupted pass of the same case (the per-pass oracle `judge` does
+            # not know VBI_SEARCH_CANCELED)
+            return cancel_oracle(case, impl_out)
         j = judge(case, impl_out)
         return j.problem or j.known
 
@@ -861,6 +983,9 @@ class C17(verif.Spec):
         if not cases: return []
         outs, inc = verif.run_side(ctx["hcmd"] + ["--regex"], cases, self.timeout_per_case)
         res = []
+        half = anchors_half_applied()
+        if half:
+            res.append((half, []))
         bad = {x["case"] for x in inc}
         for x in inc:
             res.append(("%s of the real code (%s)" % (x["kind"], verif.summarize_san(x["detail"])), cases[x["case"]]))
